@@ -11,7 +11,7 @@ for l in open(u+'.err.txt'):
     try: d=json.loads(l)
     except Exception: print(l[:300]); continue
     if d.get('level')=='warning': continue
-    print(d['rendered'][:2500])
+    print('\n'.join(d['rendered'].split('\n')[:14]))
 try:
     d=json.load(open(u+'.out.json')); print(d['verification-results'], d['times-ms']['total'])
 except Exception as e: print('no json', e)
